@@ -2,7 +2,7 @@ import sys,os,collections
 sys.path.insert(0,'/verif')
 from rules import core
 from rules.minimir import *
-P=core.Program('cli','/verif/build/facts/t1/cli')
+P=core.Program('cli',sorted(__import__('glob').glob('/verif/build/facts/*/cli'))[-1])
 I=Interp(P, effect_fns=['BitWriter::write_0','BitWriter::write_1','BitWriter::write_bit'])
 ST='json::standard::State'
 def state(i): return Adt(ST,i,['InJson','InString','InEscape','InValue'][i],[])
